@@ -182,7 +182,13 @@ fn size_of_class(r: &mut Rng, class: u8, big: bool) -> usize {
         0 => 0,
         1 => 1,
         _ => {
-            if big && r.chance(1, 6) { 40 + r.usize(300) } else { 2 + r.usize(6) }
+            // (one in twelve of the large lists is longer than the parsers' pre-allocation caps of 1024 / 4096 elements or
+            // bytes - real meshes are; after C13-r3m1)
+            if big && r.chance(1, 6) {
+                if r.chance(1, 2) { [1025usize, 4097, 4100 + r.usize(3000)][r.usize(3)] } else { 40 + r.usize(300) }
+            } else {
+                2 + r.usize(6)
+            }
         }
     }
 }
@@ -2091,6 +2097,51 @@ fn check_model(c: &mut Case, m: &M2Model, vi: usize, risk: Risk, ctx: Value) {
                 }
                 W::Rejected(e) => c.violate(sigtag(format!("rewrite-rejected|{vlabel}")), format!("writer rejected the parsed result of its own output: {e}"), ctx.clone()),
                 W::Panic(pn) => c.violate(sigtag(format!("write-panic|{vlabel}|{}", pn.sig())), format!("second write panicked: {}", pn.msg), ctx.clone()),
+            }
+            // (b') parse -> empty one populated list of the parsed object -> write -> parse (after C13-r3m2): the object handed
+            // to the writer is the truth, whatever the header it still carries from the earlier parse says
+            if risk == Risk::Clean {
+                let mut e = p.clone();
+                let k = (c.idx % 10) as usize;
+                let mut had = 0;
+                let mut which = "";
+                for off in 0..10 {
+                    let (name, n): (&str, usize) = match (k + off) % 10 {
+                        0 => ("particle_emitters", std::mem::take(&mut e.particle_emitters).len()),
+                        1 => ("ribbon_emitters", std::mem::take(&mut e.ribbon_emitters).len()),
+                        2 => ("texture_animations", std::mem::take(&mut e.texture_animations).len()),
+                        3 => ("color_animations", std::mem::take(&mut e.color_animations).len()),
+                        4 => ("transparency_animations", std::mem::take(&mut e.transparency_animations).len()),
+                        5 => ("events", std::mem::take(&mut e.events).len()),
+                        6 => ("attachments", std::mem::take(&mut e.attachments).len()),
+                        7 => ("cameras", std::mem::take(&mut e.cameras).len()),
+                        8 => ("lights", std::mem::take(&mut e.lights).len()),
+                        _ => ("global_sequences", std::mem::take(&mut e.global_sequences).len()),
+                    };
+                    if n > 0 {
+                        had = n;
+                        which = name;
+                        break;
+                    }
+                }
+                if had > 0 {
+                    c.count("edit_stages", 1);
+                    c.count(&format!("edit_stage_emptied|{which}"), 1);
+                    match write_model(&e) {
+                        W::Bytes(b3) => match parse_model(&b3) {
+                            Ok(Ok(p3)) => {
+                                cmp_proj(c, &project(&e, Ctx::full(v)), &project(&p3, Ctx::full(v)), &|s| sigtag(format!("edit-roundtrip|emptied-{which}|{s}|{vlabel}")), "parse(write(parsed model with one list emptied)) vs that model", &ctx);
+                            }
+                            Ok(Err(er)) => c.violate(sigtag(format!("edit-roundtrip|emptied-{which}|parse-rejects|{vlabel}")), format!("after emptying {which} ({had} elements) of a parsed model the written file is rejected: {er}"), ctx.clone()),
+                            Err(pn) => c.violate(sigtag(format!("parse-panic|{vlabel}|{}", pn.sig())), format!("parse after the edit stage panicked: {}", pn.msg), ctx.clone()),
+                        },
+                        W::Rejected(er) => {
+                            c.count("edit_stage_writer_rejected", 1);
+                            c.note(json!({"edit_stage_writer_rejected": er, "emptied": which}));
+                        }
+                        W::Panic(pn) => c.violate(sigtag(format!("write-panic|{vlabel}|{}", pn.sig())), format!("write after the edit stage panicked: {}", pn.msg), ctx.clone()),
+                    }
+                }
             }
         }
     }
